@@ -79,23 +79,38 @@ class ShortReads:
                                   getattr(resp.command, 'value', None)))
             return b
 
-        def map_response(response, sensors):
-            import logging
-            result = {}
-            for sensor in sensors:
-                sr.cur[0] = sensor.id_
+        class Tracked:
+            """the sensor object handed to the REAL Inverter._map_response: everything is the sensor's own, read() also notes which sensor is decoding"""
+            def __init__(self, sensor): self.__dict__['_s'] = sensor
+
+            def __getattr__(self, name): return getattr(self.__dict__['_s'], name)
+
+            def read(self, data):
+                sr.cur[0] = self.__dict__['_s'].id_
                 try:
-                    result[sensor.id_] = sensor.read(response)
-                except ValueError:
-                    result[sensor.id_] = None
+                    return self.__dict__['_s'].read(data)
                 finally:
                     sr.cur[0] = None
-            return result
+
+        def map_response(response, sensors):
+            # the implementation's own mapping helper (looked up now, so a changed one is the one that runs)
+            return INV.Inverter._map_response(response, tuple(Tracked(x) for x in sensors))
         PR.ProtocolResponse.read = read
         self.map_response = map_response
 
     def restore(self):
         self.PR.ProtocolResponse.read = self.orig_read
+
+
+# the inverter clock (yy mm dd hh mi ss) as served on one call: decodable, or one of the contents a Timestamp sensor cannot decode (clock not yet
+# synchronised: all zero; month 13; day 32; hour 24; 0xFF bytes)
+BAD_CLOCKS = (bytes(6), bytes([24, 13, 1, 0, 0, 0]), bytes([24, 2, 32, 0, 0, 0]), bytes([24, 2, 28, 24, 0, 0]), b'\xff' * 6, bytes([24, 0, 10, 1, 1, 1]))
+GOOD_CLOCK = bytes([24, 2, 28, 12, 30, 15])
+
+
+def clock_for(rng, call):
+    """the clock contents for call number `call` of a history: about half of the histories see an undecodable clock on one or more calls"""
+    return rng.choice(BAD_CLOCKS) if rng.random() < 0.35 else GOOD_CLOCK
 
 
 def et_configs(rng, deep):
@@ -145,9 +160,10 @@ def _mon_runtime(st, ctx, goodwe, want, e2e):
         cfg = dict(family='ET', model=tag, serial=serial, rated_power=rated, refused=list(sub), battery_mode=bm, sensors_listed_before_each_poll=listed, end_to_end=e2e, port=inv._protocol._port if hasattr(inv._protocol, '_port') else None)
         try:
             run(inv.read_device_info())
-            outcomes = []
+            outcomes = []; clocks = []; cfg['clock_registers_per_call'] = clocks
             for call in range(3):
                 if call == 2 and bm == 0: sim.set(35184, 3)        # the battery appears between the calls
+                clk = clock_for(ctx.rng, call); sim.set_bytes(35100, clk); clocks.append(clk.hex())
                 if listed: inv.sensors()
                 try:
                     data = run(inv.read_runtime_data())
@@ -211,7 +227,9 @@ def _mon_runtime(st, ctx, goodwe, want, e2e):
             try:
                 run(inv.read_device_info())
                 outcomes = []
+                clocks = []; cfg['clock_registers_per_call'] = clocks
                 for call in range(3):
+                    clk = clock_for(ctx.rng, call); sim.set_bytes(30100, clk); clocks.append(clk.hex())
                     inv.sensors()
                     try:
                         data = run(inv.read_runtime_data())
@@ -721,7 +739,9 @@ def mon_modes(st, ctx, goodwe):
                             st.violation(key, f'ET {vname}: {setter}({new}) returned normally although the inverter refused the write with exception code {code}; {getter}() = {got}',
                                          dict(family='ET', variant=vname, value=new, exception_code=code))
     # ES
-    for serial, fw in (('95048ESU123W0001', '2314E'), ('95048ESU123W0001', '1005A'), ('95048EMU123W0001', '1107B'), ('95000BPS123W0001', '0606A')):
+    # firmware string = DSP1 (2 digits) DSP2 (2 digits) ARM (one base-36 digit): ARM versions 14, 10, 11, 10 and the old ones 6, 3, 7, 0
+    for serial, fw in (('95048ESU123W0001', '2314E'), ('95048ESU123W0001', '1005A'), ('95048EMU123W0001', '1107B'), ('95000BPS123W0001', '0606A'),
+                       ('95048ESU123W0001', '12126'), ('95048ESU123W0001', '12123'), ('95048EMU123W0001', '12127'), ('95000BPS123W0001', '12120')):
         inv, sim = make_es(goodwe, serial, fw, seed=ctx.rng.randrange(1 << 30)); run(inv.read_device_info())
         v2 = inv._supports_eco_mode_v2()
         base = 47547 if v2 else 0x701
